@@ -425,6 +425,23 @@ theorem old_wrap_ellipsis_drops_fitting_char :
       = .ok [['あ', 'あ'], ['b']] := by
   constructor <;> rfl
 
+/-! ## `wrap` does not touch its receiver -/
+
+/-- **Wrapping is a pure function of the text.**  However often and with whatever arguments `wrap` is called on one
+`Text` object, the object is afterwards what it was, and every call answers exactly what the same call on a fresh copy
+of the original text answers — so all the theorems above apply to every call of a history, not only to the first.
+(In the model this is by construction — `wrap` has no access to mutable state; that the real code refines the pure
+model, i.e. that `copy()` / `divide()` share no span list with the receiver and the returned lines share nothing with
+each other, is what the harness checks by re-observing the receiver and all earlier results after every call and after
+editing returned lines.) -/
+theorem wrap_history_pure [BEq σ] (wv : WVariant) (cw : Char → Nat) (A : StyleAlg σ) (t : Text σ) (calls : List WrapArgs) :
+    (wrapHistory wv cw A t calls).1 = t ∧
+    (wrapHistory wv cw A t calls).2 =
+      calls.map (fun c => wrap wv cw A t c.width c.justify c.overflow c.tabSize c.noWrap) := by
+  induction calls with
+  | nil => exact ⟨rfl, rfl⟩
+  | cons c cs ih => exact ⟨ih.1, by simp only [wrapHistory, wrapCall, List.map_cons, ih.2]⟩
+
 /-! ## the hypotheses are satisfiable; the theorems at rich's own width table -/
 
 /-- rich's width function (table generated from `rich/_cell_widths.py` on this run) meets every hypothesis used above -/
